@@ -77,6 +77,8 @@ def _cb_real(spec: Any) -> Callable[..., bool]:
         return lambda v, **_: v is None
     if spec == 'not_none':
         return lambda v, **_: v is not None
+    if spec == 'truthy':
+        return lambda v, **_: bool(v)
     if spec == 'T':
         return lambda v, **_: True
     if spec == 'F':
@@ -96,6 +98,8 @@ def _cb_coq(spec: Any) -> str:
         return 'cb_is_none'
     if spec == 'not_none':
         return 'cb_not_none'
+    if spec == 'truthy':
+        return 'cb_truthy'
     if spec == 'T':
         return '(cb_const true)'
     if spec == 'F':
@@ -111,6 +115,8 @@ def _cb_spec(spec: Any, v: Any) -> bool:
         return v is None
     if spec == 'not_none':
         return v is not None
+    if spec == 'truthy':
+        return bool(v)
     if spec == 'T':
         return True
     if spec == 'F':
@@ -384,10 +390,7 @@ def _lookup(obj: Any, dotted: str) -> Any:
     return cur
 
 
-MARKER = object()       # only used when re-reading with the twist of finding F15b
-
-
-def spec_value(c: Any, v: Any, unspecified: bool, marker: bool = False) -> bool:
+def spec_value(c: Any, v: Any, unspecified: bool) -> bool:
     """One value criterion on one (possibly absent) value.  `unspecified` is the verdict for a criterion not given.
     Values are compared as Python compares JSON values (the docs speak of "Python literals")."""
     if c is None:
@@ -399,7 +402,7 @@ def spec_value(c: Any, v: Any, unspecified: bool, marker: bool = False) -> bool:
     if c[0] == 'val':                        # "has a specific value"
         return v is not ABSENT and v == c[1]
     if c[0] == 'cb':                         # "The passed value will be None if the value is absent in the resource."
-        return _cb_spec(c[1], (MARKER if marker else None) if v is ABSENT else v)
+        return _cb_spec(c[1], None if v is ABSENT else v)
     raise ValueError(c)
 
 
@@ -408,7 +411,7 @@ def spec_meta(pattern: dict, content: Any) -> bool:
     return all(spec_value(c, content.get(k, ABSENT), True) for k, c in pattern.items())
 
 
-def spec_static(d: dict, s: dict, old_counts: bool = False, marker: bool = False) -> bool:
+def spec_static(d: dict, s: dict, old_counts: bool = False) -> bool:
     """The filters of a declaration which describe the object (not the transition): selector, labels, annotations,
     field/value, when.  Multiple criteria are joined with AND."""
     body = s['body']
@@ -424,20 +427,20 @@ def spec_static(d: dict, s: dict, old_counts: bool = False, marker: bool = False
             # "The value= filter applies to either the old or the new value"
             old = _lookup(s['old'], d['field']) if s['old'] is not None else ABSENT
             new = _lookup(s['new'], d['field']) if s['new'] is not None else ABSENT
-            if not (spec_value(vc, old, True, marker) or spec_value(vc, new, True, marker)):
+            if not (spec_value(vc, old, True) or spec_value(vc, new, True)):
                 return False
         else:
             # "For all other handlers ... check the resource in its current ---and only--- state."
-            ok = spec_value(vc, _lookup(body, d['field']), True, marker)
+            ok = spec_value(vc, _lookup(body, d['field']), True)
             if old_counts and s['cls'] == 'changing':     # NOT the docs: the twist of finding F15a
                 old = _lookup(s['old'], d['field']) if s['old'] is not None else ABSENT
-                ok = ok or spec_value(vc, old, True, marker)
+                ok = ok or spec_value(vc, old, True)
             if not ok:
                 return False
     return _when_spec(d['when'], body)
 
 
-def spec_transition(d: dict, s: dict, marker: bool = False) -> bool:
+def spec_transition(d: dict, s: dict) -> bool:
     """Update handlers (@on.update, @on.field) with a field: the field is affected in any way (changed, added, removed),
     and old=/new= are checked separately, an unspecified part is not checked."""
     if d['kind'] not in UPDATE_KINDS or d['field'] is None or s['cls'] != 'changing':
@@ -445,7 +448,7 @@ def spec_transition(d: dict, s: dict, marker: bool = False) -> bool:
     old = _lookup(s['old'], d['field']) if s['old'] is not None else ABSENT
     new = _lookup(s['new'], d['field']) if s['new'] is not None else ABSENT
     affected = (old is ABSENT) != (new is ABSENT) or (old is not ABSENT and old != new)
-    return affected and spec_value(d['old'], old, True, marker) and spec_value(d['new'], new, True, marker)
+    return affected and spec_value(d['old'], old, True) and spec_value(d['new'], new, True)
 
 
 def spec_deleting(body: dict) -> bool:
@@ -469,14 +472,13 @@ def spec_kind(d: dict, s: dict) -> bool:
     return {'create': 'create', 'update': 'update', 'delete': 'delete', 'delete_opt': 'delete'}[k] == s['reason']
 
 
-def spec_selected(decls: list[dict], s: dict, excluded: Iterable[str] = (), old_counts: bool = False,
-                  marker: bool = False) -> list[str]:
+def spec_selected(decls: list[dict], s: dict, excluded: Iterable[str] = (), old_counts: bool = False) -> list[str]:
     out: list[str] = []
     seen: set[tuple[int, str]] = set()
     for d in decls:
         rid = real_id(d)
-        if (rid in excluded or not spec_kind(d, s) or not spec_static(d, s, old_counts, marker)
-                or not spec_transition(d, s, marker)):
+        if (rid in excluded or not spec_kind(d, s) or not spec_static(d, s, old_counts)
+                or not spec_transition(d, s)):
             continue
         if (d['fn'], rid) in seen:          # one function registered twice under the same id is invoked once
             continue
@@ -485,9 +487,9 @@ def spec_selected(decls: list[dict], s: dict, excluded: Iterable[str] = (), old_
     return out
 
 
-def spec_in_scope(decls: list[dict], s: dict, old_counts: bool = False, marker: bool = False) -> bool:
+def spec_in_scope(decls: list[dict], s: dict, old_counts: bool = False) -> bool:
     """Stealth mode: "if an object does not match any filters of any handlers for its resource kind"."""
-    return any(KIND_CLASS[d['kind']] == 'changing' and spec_static(d, s, old_counts, marker) for d in decls)
+    return any(KIND_CLASS[d['kind']] == 'changing' and spec_static(d, s, old_counts) for d in decls)
 
 
 def consistent(s: dict, decls: Iterable[dict] = ()) -> bool:
@@ -520,34 +522,29 @@ def wellformed(s: dict) -> bool:
 # --------------------------------------------------------------------------------------------------
 # Known findings
 # --------------------------------------------------------------------------------------------------
-def _reproduced(f: dict, old_counts: bool, marker: bool) -> bool:
+def _reproduced(f: dict, old_counts: bool) -> bool:
     """Re-reading the docs with the defect's twist reproduces the observation exactly (and the plain reading does not)."""
     c = f['case']
     decls = c['decls']
     if f['sig'] == 'selected-set':
         s = c['state']
-        return list(f['observed']) == spec_selected(decls, s, c.get('excluded', ()), old_counts, marker)
+        return list(f['observed']) == spec_selected(decls, s, c.get('excluded', ()), old_counts)
     if f['sig'] == 'scope':
         s = c['state']
-        return bool(f['observed']) == spec_in_scope(decls, s, old_counts, marker) != spec_in_scope(decls, s)
+        return bool(f['observed']) == spec_in_scope(decls, s, old_counts) != spec_in_scope(decls, s)
     if f['sig'] in ('stealth', 'invoked'):
         body = c['body']
         if f['sig'] == 'stealth':
-            return spec_matched_by_any(decls, body, old_counts, marker) and not spec_matched_by_any(decls, body)
-        allowed = e2e_allowed(decls, body, c.get('event'), old_counts, marker)
+            return spec_matched_by_any(decls, body, old_counts) and not spec_matched_by_any(decls, body)
+        allowed = e2e_allowed(decls, body, c.get('event'), old_counts)
         return all(x in allowed for x in f['observed'])
     return False
 
 
-def match_f15b(f: dict) -> bool:
-    """F15b: field value callbacks receive a private marker object, not None, for an absent field."""
-    return _reproduced(f, old_counts=False, marker=True)
-
-
 def match_f15a(f: dict) -> bool:
     """F15a: create/resume/delete handlers: value= is also tried on the OLD state (absent when there is none).
-    (With a callback criterion the old/absent side additionally shows F15b's marker.)"""
-    return not match_f15b(f) and (_reproduced(f, old_counts=True, marker=False) or _reproduced(f, old_counts=True, marker=True))
+    (F15b -- field callbacks got a private marker instead of None -- is fixed in kopf by b981eb5: no matcher any more.)"""
+    return _reproduced(f, old_counts=True)
 
 
 # --------------------------------------------------------------------------------------------------
@@ -658,10 +655,14 @@ def _cp(v: Any) -> Any:
 def falsy_decls() -> list[dict]:
     out = []
     i = 0
-    crits = [None] + [['val', v] for v in FALSY]
+    # callbacks which tell None / a marker object / falsy values apart: v is None, v is not None, bool(v), v == 0
+    cbs = [['cb', 'is_none'], ['cb', 'not_none'], ['cb', 'truthy'], ['cb', ['eq', 0]]]
+    crits = [None] + [['val', v] for v in FALSY] + cbs
     for kind in ALL_KINDS:
         for v in FALSY:
             out.append(decl(kind, f'z{i}', i, field='spec.f', value=['val', copy.deepcopy(v)])); i += 1
+        for cb in cbs:
+            out.append(decl(kind, f'w{i}', i, field='spec.f', value=copy.deepcopy(cb))); i += 1
         if kind in UPDATE_KINDS:
             for o, n in itertools.product(crits, crits):
                 if o is None and n is None:
@@ -701,7 +702,8 @@ def gen_crit(r: Any, pool: list) -> Any:
 
 R_FIELDS = ['spec.f', 'spec.a.b', 'spec.g', 'status.s', 'metadata.labels.l1']
 R_VALUES = [0, 1, 2, 'v', '', None, True, False, [], [1], {'b': 1}, {}]
-R_FIELD_CRITS = [None, None, 'PRESENT', 'ABSENT', ['cb', 'is_none'], ['cb', 'not_none'], ['cb', 'T'], ['cb', 'F']] + \
+R_FIELD_CRITS = [None, None, 'PRESENT', 'ABSENT', ['cb', 'is_none'], ['cb', 'not_none'], ['cb', 'truthy'], ['cb', ['eq', 0]],
+                 ['cb', 'T'], ['cb', 'F']] + \
                 [['val', v] for v in R_VALUES if v is not None] + [['cb', ['eq', v]] for v in (1, 'v', {'b': 1})]
 R_META_CRITS = ['PRESENT', 'ABSENT', ['val', 'v'], ['val', 'w'], ['val', ''], ['cb', 'is_none'], ['cb', 'not_none'],
                 ['cb', ['eq', 'v']], ['cb', 'T'], ['cb', 'F']]
@@ -1019,7 +1021,7 @@ def run_case(ctx: fw.Ctx, decls: list[dict], s: dict, excluded: tuple[str, ...] 
 
 
 def run(ctx: fw.Ctx) -> int:
-    ctx.matchers = {'F15a': match_f15a, 'F15b': match_f15b}
+    ctx.matchers = {'F15a': match_f15a}
     ctx.proofs()
     ok, logtxt = fw.build_models(['Model/Match.v'])
     if not ok:
@@ -1220,32 +1222,32 @@ def gen_e2e(r: Any) -> tuple[list[dict], dict]:
     return decls, {'apiVersion': 'kopf.dev/v1', 'kind': 'KopfExample', 'metadata': meta, 'spec': spec}
 
 
-def spec_matched_by_any(decls: list[dict], body: dict, old_counts: bool = False, marker: bool = False) -> bool:
+def spec_matched_by_any(decls: list[dict], body: dict, old_counts: bool = False) -> bool:
     """"matched by no handler": no declaration of any kind has its object-describing filters satisfied by the current object
     (for update handlers with a field: a fresh object has no old state, so only the current value counts)."""
     for d in decls:
         cls = KIND_CLASS[d['kind']]
         s = state(cls, body, reason='create', old=None, new=body)
-        if spec_static(d, s, old_counts, marker):
+        if spec_static(d, s, old_counts):
             return True
     return False
 
 
-def e2e_allowed(decls: list[dict], body: dict, raw_type: Any, old_counts: bool = False, marker: bool = False) -> set[str]:
+def e2e_allowed(decls: list[dict], body: dict, raw_type: Any, old_counts: bool = False) -> set[str]:
     """A fresh (never handled) object: which handlers may be called in the very first cycle."""
     deleting = spec_deleting(body)
     allowed = set()
     for d in decls:
         cls = KIND_CLASS[d['kind']]
         if cls == 'watching':
-            if spec_static(d, state(cls, body), old_counts, marker):
+            if spec_static(d, state(cls, body), old_counts):
                 allowed.add(d['id'])
             continue
         # no last-handled state => creation (or deletion if marked so); resuming is mixed in only for objects noticed by
         # the initial listing, and never into a creation
         reason = 'delete' if deleting else 'create'
         s = state('changing', body, reason=reason, initial=(raw_type is None and reason != 'create'), old=None, new=body)
-        if spec_kind(d, s) and spec_static(d, s, old_counts, marker) and spec_transition(d, s, marker):
+        if spec_kind(d, s) and spec_static(d, s, old_counts) and spec_transition(d, s):
             allowed.add(d['id'])
     return allowed
 
